@@ -5,6 +5,7 @@ use crate::common::Rng;
 use crate::sched::{self, Outcome};
 use crate::Prog;
 use iceoryx2_bb_lock_free::spsc::index_queue::RelocatableIndexQueue;
+use iceoryx2_bb_lock_free::spsc::safely_overflowing_index_queue::RelocatableSafelyOverflowingIndexQueue;
 use std::sync::Arc;
 
 pub fn parse(line: &str) -> Prog {
@@ -14,64 +15,329 @@ pub fn parse(line: &str) -> Prog {
         threads: parts[1..].iter().map(|t| t.split(',').filter(|s| !s.is_empty()).map(|s| s.to_string()).collect()).collect(),
     }
 }
-fn hget(header: &str, key: &str) -> usize {
+pub fn hget(header: &str, key: &str) -> usize {
     header.split(' ').find_map(|kv| kv.strip_prefix(&format!("{key}="))).map(|v| v.parse().unwrap()).unwrap_or(0)
+}
+
+pub struct Shared<T>(pub *mut T);
+unsafe impl<T> Send for Shared<T> {}
+unsafe impl<T> Sync for Shared<T> {}
+impl<T> Shared<T> {
+    pub fn new(v: T) -> Arc<Shared<T>> {
+        Arc::new(Shared(Box::into_raw(Box::new(v))))
+    }
+    #[allow(clippy::mut_from_ref)]
+    pub fn get(&self) -> &mut T {
+        unsafe { &mut *self.0 }
+    }
+}
+impl<T> Drop for Shared<T> {
+    fn drop(&mut self) {
+        unsafe { drop(Box::from_raw(self.0)) }
+    }
+}
+
+/// runs every thread's op list through `f(obj, tid, tokens) -> return text`
+pub fn run_threads<T: 'static>(
+    prog: &Prog, obj: Arc<Shared<T>>, objects: Vec<(usize, usize)>, schedule: Vec<usize>, random: bool, seed: u64,
+    f: fn(&mut T, usize, &[&str]) -> String,
+) -> Outcome {
+    let mut bodies: Vec<Box<dyn FnOnce(usize) + Send>> = vec![];
+    for ops in prog.threads.clone() {
+        let obj = obj.clone();
+        bodies.push(Box::new(move |tid| {
+            for op in ops {
+                let t: Vec<&str> = op.split(' ').collect();
+                let r = f(obj.get(), tid, &t);
+                sched::record(tid, format!("ret {} {}", t[0], r));
+            }
+        }));
+    }
+    sched::execute(bodies, schedule, random, seed, objects)
+}
+
+fn opt(o: Option<u64>) -> String {
+    match o {
+        Some(v) => format!("some:{v}"),
+        None => "none".into(),
+    }
+}
+
+fn gen_queue_prog(name: &str, rng: &mut Rng, min_cap: u64) -> Prog {
+    let lo = if rng.chance(15) { min_cap } else { 1 };
+    let cap = rng.range(lo, 3);
+    let np = rng.range(1, 5);
+    let nc = rng.range(1, 4);
+    let mut v = 10;
+    let obs = ["len", "is_full", "is_empty"];
+    let mut p = vec![];
+    for _ in 0..np {
+        p.push(if rng.chance(88) { v += 1; format!("push {v}") } else { (*rng.pick(&obs)).to_string() });
+    }
+    let mut c = vec![];
+    for _ in 0..nc {
+        c.push(if rng.chance(88) { "pop".to_string() } else { (*rng.pick(&obs)).to_string() });
+    }
+    // roles are acquired through the API; a third thread may compete for a role (hand-over)
+    p.insert(0, "acquire_producer".into());
+    c.insert(0, "acquire_consumer".into());
+    let mut threads = vec![p, c];
+    if rng.chance(40) {
+        if rng.chance(50) { threads[0].push("release_producer".into()); } else { threads[1].push("release_consumer".into()); }
+        let mut x = vec![];
+        for _ in 0..rng.range(1, 4) {
+            x.push(match rng.below(6) {
+                0 => "acquire_producer".to_string(),
+                1 => "acquire_consumer".to_string(),
+                2 => { v += 1; format!("push {v}") }
+                3 => "pop".to_string(),
+                4 => (*rng.pick(&["release_producer", "release_consumer"])).to_string(),
+                _ => (*rng.pick(&obs)).to_string(),
+            });
+        }
+        threads.push(x);
+    }
+    Prog { header: format!("{name} cap={cap}"), threads }
+}
+
+/// runs queue programs through the safe role API (`acquire_producer` → `Producer::push`, …); an
+/// operation the thread cannot issue (it does not own the role object) is skipped
+macro_rules! run_queue {
+    ($prog:expr, $blk:expr, $schedule:expr, $random:expr, $seed:expr, $push:expr) => {{
+        let r = $blk.get().range();
+        let mut bodies: Vec<Box<dyn FnOnce(usize) + Send>> = vec![];
+        for ops in $prog.threads.clone() {
+            let blk = $blk.clone();
+            bodies.push(Box::new(move |tid| {
+                let q = blk.get().get();
+                let mut prod = None;
+                let mut cons = None;
+                for op in ops {
+                    let t: Vec<&str> = op.split(' ').collect();
+                    let r: Option<String> = match t[0] {
+                        "acquire_producer" => if prod.is_none() { prod = q.acquire_producer(); Some(format!("{}", prod.is_some())) } else { None },
+                        "acquire_consumer" => if cons.is_none() { cons = q.acquire_consumer(); Some(format!("{}", cons.is_some())) } else { None },
+                        "release_producer" => if prod.is_some() { prod = None; Some(String::new()) } else { None },
+                        "release_consumer" => if cons.is_some() { cons = None; Some(String::new()) } else { None },
+                        "push" => prod.as_mut().map(|p| $push(p.push(t[1].parse().unwrap()))),
+                        "pop" => cons.as_mut().map(|c| opt(c.pop())),
+                        "len" => Some(format!("{}", q.len())),
+                        "is_full" => Some(format!("{}", q.is_full())),
+                        "is_empty" => Some(format!("{}", q.is_empty())),
+                        _ => panic!("bad op"),
+                    };
+                    if let Some(r) = r {
+                        sched::record(tid, format!("ret {} {}", t[0], r).trim_end().to_string());
+                    }
+                }
+                // role objects still held are leaked: their release is not part of the program
+                std::mem::forget(prod);
+                std::mem::forget(cons);
+            }));
+        }
+        sched::execute(bodies, $schedule, $random, $seed, vec![r])
+    }};
+}
+
+fn gen_seqlock_prog(rng: &mut Rng) -> Prog {
+    let width = *rng.pick(&[1usize, 2, 5]);
+    let mut v = 0;
+    let mut w = vec!["acquire_producer".to_string()];
+    for _ in 0..rng.range(1, 4) {
+        v += 1;
+        w.push(if rng.chance(50) { format!("store {v}") } else { format!("store2 {v}") });
+    }
+    let mut threads = vec![w];
+    for _ in 0..rng.range(1, 2) {
+        let mut r = vec![];
+        for _ in 0..rng.range(1, 3) {
+            r.push("load".to_string());
+        }
+        threads.push(r);
+    }
+    if rng.chance(30) {
+        threads[0].push("release_producer".into());
+        v += 1;
+        threads.push(vec!["acquire_producer".into(), format!("store {v}"), "load".into()]);
+    }
+    Prog { header: format!("seqlock width={width}"), threads }
+}
+
+fn run_seqlock<const W: usize>(prog: &Prog, schedule: Vec<usize>, random: bool, seed: u64) -> Outcome {
+    use iceoryx2_bb_lock_free::spmc::unrestricted_atomic::UnrestrictedAtomic;
+    let words = |v: u64| -> [u64; W] { core::array::from_fn(|k| 100 * v + k as u64) };
+    let a = Shared::new(UnrestrictedAtomic::<[u64; W]>::new(words(0)));
+    let range = (a.0 as usize, core::mem::size_of::<UnrestrictedAtomic<[u64; W]>>());
+    let mut bodies: Vec<Box<dyn FnOnce(usize) + Send>> = vec![];
+    for ops in prog.threads.clone() {
+        let a = a.clone();
+        bodies.push(Box::new(move |tid| {
+            let at = a.get();
+            let mut prod = None;
+            for op in ops {
+                let t: Vec<&str> = op.split(' ').collect();
+                let r: Option<String> = match t[0] {
+                    "acquire_producer" => if prod.is_none() { prod = at.acquire_producer(); Some(format!("{}", prod.is_some())) } else { None },
+                    "release_producer" => if prod.is_some() { prod = None; Some(String::new()) } else { None },
+                    "store" => prod.as_ref().map(|p| { p.store(words(t[1].parse().unwrap())); String::new() }),
+                    "store2" => prod.as_ref().map(|p| unsafe {
+                        let ptr = p.__internal_get_ptr_to_write_cell();
+                        ptr.write(words(t[1].parse().unwrap()));
+                        p.__internal_update_write_cell();
+                        String::new()
+                    }),
+                    "load" => Some(at.load().iter().map(|x| x.to_string()).collect::<Vec<_>>().join(",")),
+                    _ => panic!("bad op"),
+                };
+                if let Some(r) = r {
+                    let name = if t[0] == "store2" { "store" } else { t[0] };
+                    sched::record(tid, format!("ret {} {}", name, r).trim_end().to_string());
+                }
+            }
+            std::mem::forget(prod);
+        }));
+    }
+    sched::execute(bodies, schedule, random, seed, vec![range])
+}
+
+// ---------------------------------------------------------------------------------------------
+// zero-copy connection lifecycle (C13): attach / detach / forced removal of the two roles
+fn gen_conn_prog(rng: &mut Rng, misuse: bool) -> Prog {
+    let nthreads = rng.range(2, 3);
+    let mut threads = vec![];
+    for i in 0..nthreads {
+        let role = if i == 0 { "sender" } else if i == 1 { "receiver" } else { *rng.pick(&["sender", "receiver"]) };
+        let mut ops = vec![];
+        for _ in 0..rng.range(1, 2) {
+            let param = if rng.chance(80) { 2 } else { 3 }; // buffer size; 3 = mismatch with the usual 2
+            ops.push(format!("create_{role} {param}"));
+            match rng.below(10) {
+                0..=6 => ops.push(format!("drop_{role}")),
+                7..=8 => { ops.push(format!("abandon_{role}")); ops.push(format!("remove_{role}")); }
+                _ => {}
+            }
+            if misuse && rng.chance(40) {
+                ops.push(format!("removeunchecked_{role}"));
+            }
+        }
+        threads.push(ops);
+    }
+    Prog { header: "conn".to_string(), threads }
+}
+
+static CONN_COUNTER: std::sync::atomic::AtomicUsize = std::sync::atomic::AtomicUsize::new(0);
+
+fn run_conn(prog: &Prog, schedule: Vec<usize>, random: bool, seed: u64) -> Outcome {
+    use iceoryx2_bb_container::semantic_string::SemanticString;
+    use iceoryx2_bb_system_types::file_name::FileName;
+    use iceoryx2_cal::named_concept::NamedConceptBuilder;
+    use iceoryx2_cal::zero_copy_connection::process_local::Connection;
+    use iceoryx2_cal::zero_copy_connection::{ZeroCopyConnection, ZeroCopyConnectionBuilder, ZeroCopyCreationError};
+    type B = <Connection as ZeroCopyConnection>::Builder;
+    let n = CONN_COUNTER.fetch_add(1, std::sync::atomic::Ordering::Relaxed);
+    let name = FileName::new(format!("vc{n}").as_bytes()).unwrap();
+    fn builder(name: &FileName, buf: usize) -> B {
+        B::new(name).buffer_size(buf).receiver_max_borrowed_chunks_per_channel(2).number_of_chunks_per_segment(8)
+    }
+    fn err(e: ZeroCopyCreationError) -> String {
+        format!("err:{e:?}")
+    }
+    if n == 0 {
+        // warm-up on the unscheduled main thread: lazy statics, global map
+        let nm = FileName::new(b"vcwarm").unwrap();
+        let s = builder(&nm, 2).create_sender();
+        let r = builder(&nm, 2).create_receiver();
+        drop(s);
+        drop(r);
+    }
+    let mut bodies: Vec<Box<dyn FnOnce(usize) + Send>> = vec![];
+    for ops in prog.threads.clone() {
+        bodies.push(Box::new(move |tid| {
+            let mut snd = None;
+            let mut rcv = None;
+            let (mut dead_s, mut dead_r) = (false, false);
+            for op in ops {
+                let t: Vec<&str> = op.split(' ').collect();
+                let r: Option<String> = match t[0] {
+                    "create_sender" => if snd.is_none() && !dead_s {
+                        match builder(&name, t[1].parse().unwrap()).create_sender() { Ok(s) => { snd = Some(s); Some("ok".into()) } Err(e) => Some(err(e)) }
+                    } else { None },
+                    "create_receiver" => if rcv.is_none() && !dead_r {
+                        match builder(&name, t[1].parse().unwrap()).create_receiver() { Ok(s) => { rcv = Some(s); Some("ok".into()) } Err(e) => Some(err(e)) }
+                    } else { None },
+                    "drop_sender" => snd.take().map(|s| { drop(s); String::new() }),
+                    "drop_receiver" => rcv.take().map(|s| { drop(s); String::new() }),
+                    // the port's owner dies: no destructor runs
+                    "abandon_sender" => { if let Some(s) = snd.take() { std::mem::forget(s); dead_s = true; } None }
+                    "abandon_receiver" => { if let Some(s) = rcv.take() { std::mem::forget(s); dead_r = true; } None }
+                    // forced removal within the contract: only on behalf of a port that died while attached
+                    "remove_sender" if !dead_s => None,
+                    "remove_receiver" if !dead_r => None,
+                    "remove_sender" | "removeunchecked_sender" => Some(match unsafe { Connection::remove_sender(&name, &Default::default()) } { Ok(()) => "ok".into(), Err(e) => format!("err:{e:?}") }),
+                    "remove_receiver" | "removeunchecked_receiver" => Some(match unsafe { Connection::remove_receiver(&name, &Default::default()) } { Ok(()) => "ok".into(), Err(e) => format!("err:{e:?}") }),
+                    _ => panic!("bad op"),
+                };
+                if t[0] == "remove_sender" && r.is_some() { dead_s = false; }
+                if t[0] == "remove_receiver" && r.is_some() { dead_r = false; }
+                if let Some(r) = r {
+                    let name = t[0].replace("removeunchecked", "remove");
+                    sched::record(tid, format!("ret {} {}", name, r).trim_end().to_string());
+                }
+            }
+            // ports still held at the end of the program are abandoned (the thread "dies")
+            std::mem::forget(snd);
+            std::mem::forget(rcv);
+        }));
+    }
+    // only the one-byte atomics are traced: the connection state byte and the ownership flags of
+    // the storage handles (RelocatablePointer distance loads, channel-state stores of a forced
+    // removal and the LazyLock cell are yield points but not part of the C13 model)
+    sched::load_image_ranges();
+    *sched::KEEP.lock().unwrap() = Some(|_kind, addr, width| width == 1 && !sched::is_static(addr));
+    *sched::CRIT_INFO.lock().unwrap() = Some(Box::new(move || {
+        use iceoryx2_cal::named_concept::NamedConceptMgmt;
+        format!("exists={}", Connection::does_exist_cfg(&name, &Default::default()).unwrap_or(false) as u8)
+    }));
+    let o = sched::execute(bodies, schedule, random, seed, vec![]);
+    *sched::KEEP.lock().unwrap() = None;
+    *sched::CRIT_INFO.lock().unwrap() = None;
+    // remove leftovers of abandoned ports
+    unsafe {
+        use iceoryx2_cal::named_concept::NamedConceptMgmt;
+        let _ = Connection::remove_cfg(&name, &Default::default());
+    }
+    o
 }
 
 pub fn generate(component: &str, rng: &mut Rng) -> Prog {
     match component {
-        "spsc" => {
-            let cap = rng.range(1, 3);
-            let np = rng.range(1, 4);
-            let nc = rng.range(1, 4);
-            let mut v = 10;
-            let mut p = vec![];
-            for _ in 0..np {
-                p.push(if rng.chance(85) { v += 1; format!("push {v}") } else { (*rng.pick(&["len", "is_full", "is_empty"])).to_string() });
-            }
-            let mut c = vec![];
-            for _ in 0..nc {
-                c.push(if rng.chance(85) { "pop".to_string() } else { (*rng.pick(&["len", "is_full", "is_empty"])).to_string() });
-            }
-            Prog { header: format!("spsc cap={cap}"), threads: vec![p, c] }
-        }
-        _ => panic!("unknown component"),
+        "conn" => gen_conn_prog(rng, false),
+        "conn-misuse" => gen_conn_prog(rng, true),
+        "seqlock" => gen_seqlock_prog(rng),
+        "spsc" => gen_queue_prog("spsc", rng, 1),
+        "overflow" => gen_queue_prog("overflow", rng, 0),
+        _ => panic!("unknown component {component}"),
     }
 }
 
-struct SendPtr<T>(*const T);
-unsafe impl<T> Send for SendPtr<T> {}
-unsafe impl<T> Sync for SendPtr<T> {}
-
 pub fn run(component: &str, prog: &Prog, schedule: Vec<usize>, random: bool, seed: u64) -> Outcome {
+    let cap = hget(&prog.header, "cap");
     match component {
+        "conn" | "conn-misuse" => run_conn(prog, schedule, random, seed),
+        "seqlock" => match hget(&prog.header, "width") {
+            1 => run_seqlock::<1>(prog, schedule, random, seed),
+            2 => run_seqlock::<2>(prog, schedule, random, seed),
+            5 => run_seqlock::<5>(prog, schedule, random, seed),
+            _ => panic!("unsupported width"),
+        },
         "spsc" => {
-            let cap = hget(&prog.header, "cap");
-            let blk = Arc::new(SendPtr(Box::into_raw(Box::new(RelocBlock::<RelocatableIndexQueue>::new(cap, 0)))));
-            let (base, size) = unsafe { (*blk.0).range() };
-            let mut bodies: Vec<Box<dyn FnOnce(usize) + Send>> = vec![];
-            for ops in prog.threads.clone() {
-                let blk = blk.clone();
-                bodies.push(Box::new(move |tid| {
-                    let q = unsafe { (*blk.0).get() };
-                    for op in ops {
-                        let t: Vec<&str> = op.split(' ').collect();
-                        let r = match t[0] {
-                            "push" => format!("{}", unsafe { q.push(t[1].parse().unwrap()) }),
-                            "pop" => match unsafe { q.pop() } { Some(v) => format!("some:{v}"), None => "none".into() },
-                            "len" => format!("{}", q.len()),
-                            "is_full" => format!("{}", q.is_full()),
-                            "is_empty" => format!("{}", q.is_empty()),
-                            _ => panic!("bad op"),
-                        };
-                        sched::record(tid, format!("ret {} {}", t[0], r));
-                    }
-                }));
-            }
-            let o = sched::execute(bodies, schedule, random, seed, vec![(base, size)]);
-            unsafe { drop(Box::from_raw(blk.0 as *mut RelocBlock<RelocatableIndexQueue>)) };
-            o
+            let blk = Shared::new(RelocBlock::<RelocatableIndexQueue>::new(cap, 0));
+            run_queue!(prog, blk, schedule, random, seed, |b: bool| format!("{b}"))
         }
-        _ => panic!("unknown component"),
+        "overflow" => {
+            let blk = Shared::new(RelocBlock::<RelocatableSafelyOverflowingIndexQueue>::new(cap, 0));
+            run_queue!(prog, blk, schedule, random, seed, opt)
+        }
+        _ => panic!("unknown component {component}"),
     }
 }
